@@ -13,6 +13,7 @@ import (
 	"verif/harness/backends"
 	"verif/harness/evid"
 	"verif/harness/oracle"
+	"verif/harness/prog"
 	"verif/harness/s3x"
 
 	"pgregory.net/rapid"
@@ -304,6 +305,40 @@ func c17Run(t *testing.T, c *evid.Collector) {
 			c.Case(evid.FP(string(k), "probe", probe[0], probe[1]), true, func() interface{} { return cs }, "backend:"+string(k), "src:no-create-probe")
 			report(c, "listbuckets", ds, cs)
 		}
+	}
+	// storing objects (of any size, by any route) in a bucket that was created makes no other bucket appear
+	for _, k := range kinds {
+		e := envs[k]
+		ds, _, acc := e.create("objects-go-here")
+		if !acc {
+			report(c, "listbuckets", append(ds, dsc("harness", "backend=%s: cannot create the bucket for the object probes", k)...), c17Case{k, "objects-go-here"})
+			continue
+		}
+		for _, n := range []int{0, 1, 4096, 32768, 32769, 300000, 1<<20 + 3} {
+			key := fmt.Sprintf("dir/object-%d", n)
+			r := put(e.st, "objects-go-here", key, prog.Pattern(n, uint64(n)))
+			cs := c17Case{k, fmt.Sprintf("PUT /objects-go-here/%s (%d bytes)", key, n)}
+			var pd []disc
+			if r.Status != 200 {
+				pd = dsc("harness", "backend=%s: %s answered %s", k, cs.Name, r)
+			}
+			pd = append(pd, e.checkList()...)
+			for _, internal := range []string{"_blobs", "_meta", "_parts", "_chunks", "_objects"} {
+				if h := s3x.Do(e.st.Handler, &s3x.Req{Method: "HEAD", Path: "/" + internal}); h.Status == 200 {
+					pd = append(pd, dsc("internal-storage-addressable", "backend=%s: after %s, HEAD /%s answers 200", k, cs.Name, internal)...)
+				}
+			}
+			c.Case(evid.FP(string(k), "object-probe", fmt.Sprint(n)), true, func() interface{} { return cs }, "backend:"+string(k), "src:object-probe")
+			report(c, "listbuckets", pd, cs)
+		}
+		// a multipart upload and a copy as well
+		x := s3x.Do(e.st.Handler, &s3x.Req{Method: "POST", Path: "/objects-go-here/mp", Query: s3x.Q("uploads", s3x.Bare)})
+		var d s3x.InitiateDoc
+		if x.Status == 200 && x.XML(&d) == nil {
+			s3x.Do(e.st.Handler, &s3x.Req{Method: "PUT", Path: "/objects-go-here/mp", Query: s3x.Q("partNumber", "1", "uploadId", d.UploadId), Body: prog.Pattern(70000, 3)})
+		}
+		s3x.Do(e.st.Handler, &s3x.Req{Method: "PUT", Path: "/objects-go-here/copied", Header: s3x.H("X-Amz-Copy-Source", "/objects-go-here/dir/object-300000")})
+		report(c, "listbuckets", e.checkList(), c17Case{k, "(after multipart and copy)"})
 	}
 	for _, k := range kinds {
 		report(c, "listbuckets", envs[k].checkList(), c17Case{k, "(final)"})
